@@ -18,6 +18,8 @@ import (
 
 // GlobCase is a directory tree and a set of patterns.
 type GlobCase struct {
+	// Dir names the directory holding the spokfile ("" = proj)
+	Dir      string   `json:"dir,omitempty"`
 	Paths    []string `json:"paths"` // files; a trailing '/' denotes an (empty) directory
 	Patterns []string `json:"patterns"`
 	// ViaChain: the pattern tasks are not requested themselves but reached through two levels
@@ -65,6 +67,9 @@ func (c GlobCase) Source() string {
 }
 
 func execGlob(s *ev.Shard, root string, c GlobCase) *rp.Fail {
+	if c.Dir != "" {
+		root = filepath.Join(filepath.Dir(root), c.Dir)
+	}
 	_ = os.RemoveAll(root)
 	if err := os.MkdirAll(root, 0o755); err != nil {
 		return &rp.Fail{Sig: "harness", Msg: err.Error()}
